@@ -1,28 +1,35 @@
 import PynetVerif.Model.SExp
 import PynetVerif.Model.Cancel
+import PynetVerif.Gen.Cancel
 /-!
 `(cancel (<ev> ...))` — run the C-CANCEL store model from the empty state.
-Events: `(recv id)`, `(begin id)`, `(query id)`, `end`, `endraise`.
+Events: `(recv id)`, `(begin id)`, `(query id)`, `end`, `endraise`, and `side` — a whole
+`_serve_request` run of a request served in its own thread, which empties the store or not as the
+regenerated source facts say.
 Reply: one entry per event, `((store keys in insertion order) (ids queued on msg_queue) answer)`
 with answer `T`/`F` for a query and `none` otherwise.
 -/
 namespace PynetVerif.Driver
 open PynetVerif.Cancel
 
-private def cancelEvOf : SExp → Option Ev
-  | .list [.sym "recv", .nat id] => some (.recvCancel id)
-  | .list [.sym "begin", .nat id] => some (.beginOp id)
-  | .list [.sym "query", .nat id] => some (.query id)
-  | .sym "end" => some .endOp
-  | .sym "endraise" => some .endOpRaise
+private def cancelEvOf : SExp → Option DEv
+  | .list [.sym "recv", .nat id] => some (.ev (.recvCancel id))
+  | .list [.sym "begin", .nat id] => some (.ev (.beginOp id))
+  | .list [.sym "query", .nat id] => some (.ev (.query id))
+  | .sym "end" => some (.ev .endOp)
+  | .sym "endraise" => some (.ev .endOpRaise)
+  | .sym "side" => some .side
   | _ => none
+
+def cancelSideClears : Bool :=
+  sideClears Gen.Cancel.serveTry Gen.Cancel.clearGuards Gen.Cancel.sideThread
 
 def cancelOps (op : String) (args : List SExp) : Option SExp :=
   match op, args with
   | "cancel", [.list evs] =>
     match evs.mapM cancelEvOf with
     | some evs =>
-      some (.list ((trace Cancel.init evs).map (fun r =>
+      some (.list ((dtrace cancelSideClears Cancel.init evs).map (fun r =>
         .list [.list (r.1.store.map .nat), .list (r.1.queued.map .nat),
                match r.2 with | some b => SExp.ofBool b | none => .sym "none"])))
     | none => some (.sym "ERR:bad-args")
